@@ -11,6 +11,7 @@ import datetime
 import math
 from typing import Any, Callable, Dict, List
 
+import hypothesis
 from hypothesis import strategies as st
 
 from . import gates as G
@@ -1203,9 +1204,12 @@ def circuit_op(draw, reg_, depth=0, no_measure=False):
     if no_measure:
         fc = _strip_measure(fc)
     r = {"T": "CircuitOperation", "circuit": fc}
-    c = B(fc)
-    keys = sorted(str(kk) for kk in cirq.measurement_key_objs(c))
-    syms = sorted(cirq.parameter_names(c))
+    try:  # probing the drawn body must never raise out of the strategy (that would kill the whole shard)
+        c = B(fc)
+        keys = sorted(str(kk) for kk in cirq.measurement_key_objs(c))
+        syms = sorted(n for n in cirq.parameter_names(c) if n != "nrep")
+    except Exception:
+        hypothesis.reject()
     used = set(sub_w)
     # qubit map onto unused wires of the same dimension
     if draw(st.booleans()):
@@ -1240,7 +1244,8 @@ def circuit_op(draw, reg_, depth=0, no_measure=False):
         r["repetition_ids"] = draw(st.lists(st.sampled_from(PATHS + ["a", "b", "c"]), min_size=abs(n), max_size=abs(n), unique=True))
         r["use_repetition_ids"] = draw(st.sampled_from([None, True, False]))
     elif mode == "sym_reps":
-        r["repetitions"] = draw(st.one_of(_ssym(), sexpr(1)))
+        r["repetitions"] = draw(st.sampled_from([{"T": "S", "op": "sym", "n": "nrep"},
+                                                   {"T": "S", "op": "mul", "a": [{"T": "S", "op": "sym", "n": "nrep"}, {"T": "S", "op": "int", "v": 2}]}]))
         r["use_repetition_ids"] = draw(st.sampled_from([None, False]))
     elif mode == "until" and plain and not no_measure:
         # (scoped keys / parent paths under repeat_until are C12's domain: the constructor's own key scoping then decides)
@@ -1296,7 +1301,8 @@ def _b_circop(r):
         kwargs["use_repetition_ids"] = r["use_repetition_ids"]
     if "parent_path" in r:
         kwargs["parent_path"] = tuple(r["parent_path"])
-    return cirq.CircuitOperation(B(r["circuit"]), **kwargs)
+    body = B(r["circuit"])
+    return cirq.CircuitOperation(body.freeze() if isinstance(body, cirq.Circuit) else body, **kwargs)  # (minimiser may flip "frozen")
 
 
 @st.composite
